@@ -10,6 +10,5 @@ def calc_ast_hash(a: ast.AST) -> str:
     including the input datasets
     """
 
-    b = bytearray()
-    b.extend(map(ord, ast.dump(a)))
+    b = ast.dump(a).encode("utf-8", errors="surrogatepass")
     return hashlib.md5(b).hexdigest()
